@@ -97,6 +97,10 @@ def where(diff):
 def classify(row):
     """Stable signature of a failing sweep row."""
     m = row.get("m", "?")
+    if row.get("copy_raises"):
+        if "must have 1-dimensional data" in row["copy_raises"]:
+            return f"dimension-coordinate-not-1d-after:{m}"
+        return f"uncopyable-after:{m}"
     if row.get("dir") == "P":
         if row.get("placeholder_receiver") or row.get("placeholder_inplace") or row.get("placeholder_result"):
             return "inplace-placeholder-survives"
@@ -121,17 +125,32 @@ def classify(row):
     return f"other:{m}"
 
 
+def describe(r):
+    if r.get("copy_raises"):
+        return "copy() of the " + r["copy_raises"]
+    if r.get("outcome_mismatch"):
+        return (f"inplace=False: {r.get('outcome')} ({r.get('msg', '')[:120]}); "
+                f"inplace=True on a copy: {r.get('outcome_inplace')}")
+    if r.get("placeholder_receiver") or r.get("placeholder_inplace") or r.get("placeholder_result"):
+        return "placeholder left behind"
+    if r.get("result_is_receiver"):
+        return "inplace=False returned the receiver itself"
+    if r.get("inplace_returns_none") is False:
+        return "inplace=True returned a value"
+    return "see observed"
+
+
 def is_bad(row):
     if "skip" in row:
         return False
     if row.get("dir") == "P":
         return bool(row.get("changed") or row.get("pool_changed") or row.get("result_differs")
                     or row.get("placeholder_receiver") or row.get("placeholder_inplace")
-                    or row.get("placeholder_result") or row.get("outcome_mismatch")
+                    or row.get("placeholder_result") or row.get("outcome_mismatch") or row.get("copy_raises")
                     or row.get("result_is_receiver") or row.get("inplace_returns_none") is False)
     if "copyfid" in row:
         return bool(row.get("copyfid")) or row.get("stable") is False
-    return bool(row.get("changed") or row.get("pool_changed") or row.get("copy_of_copy_differs"))
+    return bool(row.get("changed") or row.get("pool_changed") or row.get("copy_of_copy_differs") or row.get("copy_raises"))
 
 
 def run(chk, model_ok):
@@ -188,7 +207,7 @@ def run(chk, model_ok):
             sig = classify(r)
             what = (f"{r.get('cls')}.{r.get('m')} on {r.get('label')} (variant {r.get('v')}, {r.get('dir', 'copy')}): "
                     + "; ".join((r.get("diff") or r.get("pool_diff") or r.get("result_diff")
-                                 or r.get("copy_of_copy_differs") or ["placeholder left behind"])[:3]))
+                                 or r.get("copy_of_copy_differs") or [describe(r)])[:3]))
             chk.fail("property", sig, what[:500],
                      {"input": {"label": r.get("label"), "m": r.get("m"), "kind": r.get("kind"), "v": r.get("v"),
                                 "dir": r.get("dir")},
